@@ -39,7 +39,7 @@ SELECT = {
                 lambda o: OL.leaf1(_et(o)['version'], [(k, v) for k, v in _et(o)['attachments'][0].items() if k != 'name'])
                 if _et(o)['attachments'] and _et(o)['attachments'][0]['name'] == 'doc' else None),
     'parent': (1, '(cmp_leaf1 ks_parent)', lambda O: O.get_event_type('ta').get_parent(),
-               lambda o: OL.leaf1(_et(o)['version'], list(_et(o)['parent'].items())) if _et(o)['parent'] else None),
+               lambda o: OL.leaf1(_et(o)['version'], OL.parent_attrs(_et(o)['parent'])) if _et(o)['parent'] else None),
     'etype:ta': (2, '(cmp_etype FIXED)', lambda O: O.get_event_type('ta'), lambda o: OL.et_node(_et(o), o)),
 }
 KIND_OF_EDIT = {'object-type': ['objtype:o', 'objtype:n', 'objtype:e', 'objtype:g'], 'concept': ['concept:c'], 'source': ['source:/s/'],
@@ -102,6 +102,8 @@ def build_variants(rng, budget):
             good['version'] = 2
             bad['description'] = 'changed without a new version'
             variants.append(('%s/%s-valid-other-incompatible@mixed' % (label, 'first' if first_valid else 'second'), o, set(kinds)))
+    for order in ('r:k2,p:k', 'p:k,r:k2'):
+        variants.append(('ta.parent.property-map-order=%s@1' % order, OL.two_entry_parent(order), {'parent', 'etype:ta'}))
     two('two-object-types', lambda o: OL._ot(o, 'o'), lambda o: OL._ot(o, 'e'), ['objtype:o', 'objtype:e'])
     two('two-concepts', lambda o: o['concepts'][0], lambda o: o['concepts'][1], ['concept:c'])
     two('two-event-types', lambda o: next(e for e in o['event-types'] if e['name'] == 'parent'), _et, ['etype:ta'])
